@@ -1,16 +1,44 @@
-"""int()/float() of symbolic strings (assumed contracts; see C10)."""
+"""int()/float() of symbolic strings.
+
+Assumed contract of CPython's converters (trusted base): float(s)/int(s) either raise
+ValueError or return a number that is a function of the text: unknown predicates
+float_ok / int_ok and unknown functions float_val / int_val.  (C10 refines these with
+the decimal grammar.)
+"""
+import z3
 from .interp import OutOfReach
+from .smt import VReal, VInt, get_s, get_i, S
+from .values import Sym
+
+StrS = z3.StringSort()
+float_ok = z3.Function("float_ok", StrS, z3.BoolSort())
+float_val = z3.Function("float_val", StrS, z3.RealSort())
+int_ok = z3.Function("int_ok", StrS, z3.BoolSort())
+int_val = z3.Function("int_val", StrS, z3.IntSort())
 
 
 def int_of_str(I, v):
     h = getattr(I, "int_of_str_hook", None)
     if h is not None:
         return h(I, v)
-    raise OutOfReach("int() of symbolic string")
+    t = get_s(v.term)
+    if not I.prover.fork(int_ok(t)):
+        I.raise_builtin("ValueError", "invalid literal for int()")
+    return Sym(VInt(int_val(t)))
 
 
 def float_of(I, v):
     h = getattr(I, "float_of_hook", None)
     if h is not None:
         return h(I, v)
-    raise OutOfReach("float() of symbolic value")
+    k = I.kind(v)
+    if k == "real":
+        return v
+    if k in ("int", "bool"):
+        return Sym(VReal(z3.ToReal(I.as_int(v))))
+    if k == "str":
+        t = get_s(v.term)
+        if not I.prover.fork(float_ok(t)):
+            I.raise_builtin("ValueError", "could not convert string to float")
+        return Sym(VReal(float_val(t)))
+    I.raise_builtin("TypeError", "float() argument must be a string or a real number, not '%s'" % k)
